@@ -292,7 +292,8 @@ def _parse_directive_options(
             value = None
         try:
             converted_value = converter(value)
-        except (ValueError, TypeError) as error:
+        except (ValueError, TypeError, AttributeError) as error:
+            # note, some docutils converters raise an AttributeError for a missing value
             validation_errors.append(
                 ParseWarnings(
                     f"Invalid option value for {name!r}: {value}: {error}",
